@@ -65,11 +65,9 @@ ASSUMPTIONS = [
 ]
 
 MAX_TEXT = 200_000
-HERE = os.path.dirname(os.path.abspath(__file__))
 
 # ------------------------------------------------------------------ lexical oracle (independent)
 
-WS_CHARS = " \t\f\r\n"
 _WS = r"[ \t\f\r\n]*"
 _FLOAT = r"[+-]?(?:[0-9]+\.[0-9]*(?:[eE][+-]?[0-9]+)?|\.[0-9]+(?:[eE][+-]?[0-9]+)?|[0-9]+[eE][+-]?[0-9]+)"
 _INT = r"[+-]?[0-9]+"
@@ -283,11 +281,11 @@ def check_text(text, out=None):
             mag = res.magnitude
             written, _ = written_numeral(text)
             if written is None:
-                out.fail("C17:magnitude:no-numeral-written", f"Quantity.parse({_short(text)}) accepted, magnitude {_short(repr(mag))}, but no numeral starts the text")
+                out.fail("C17:magnitude:no-numeral-written", f"Quantity.parse({_short(text)}) accepted, magnitude {_repr(mag)}, but no numeral starts the text")
             else:
                 got = type(mag)
                 if got is not (int if written == "int" else float):
-                    out.fail(f"C17:magnitude:type:{written}-written:{got.__name__}-returned", f"Quantity.parse({_short(text)}).magnitude is {_short(repr(mag))} ({got.__name__}); a {written} was written")
+                    out.fail(f"C17:magnitude:type:{written}-written:{got.__name__}-returned", f"Quantity.parse({_short(text)}).magnitude is {_repr(mag)} ({got.__name__}); a {written} was written")
                 elif got is float and math.isnan(mag):
                     out.fail("C17:magnitude:nan", f"Quantity.parse({_short(text)}).magnitude is NaN")
                 out.classes.append(f"magnitude:{written}")
@@ -308,10 +306,10 @@ def check_text(text, out=None):
         s1, s2 = _sig(kind, res), _sig(kind2, res2)
         if s1 != s2:
             shape = f"{s1[0]}->{s2[0]}" if s1[0] != s2[0] else ("exception-class" if kind != "ok" else ("unit-identity" if s1[1] != s2[1] else "magnitude"))
-            out.fail(f"C17:twice:{entry}:{shape}", f"{entry}.parse({_short(text)}) gave {_describe(kind, res)} and then {_describe(kind2, res2)}")
+            out.fail(f"C17:twice:{entry}:{shape}", f"{entry}.parse({_short(text)}) gave {_describe(kind, res)} and then {_describe(kind2, res2)}{' (another unit object)' if shape == 'unit-identity' else ''}")
         elif kind == "ok" and entry == "Quantity" and isinstance(res, M.Quantity) and isinstance(res2, M.Quantity):
             if not _same_mag(res.magnitude, res2.magnitude):
-                out.fail(f"C17:twice:{entry}:magnitude", f"{entry}.parse({_short(text)}) gave magnitudes {_short(repr(res.magnitude))} and {_short(repr(res2.magnitude))}")
+                out.fail(f"C17:twice:{entry}:magnitude", f"{entry}.parse({_short(text)}) gave magnitudes {_repr(res.magnitude)} and {_repr(res2.magnitude)}")
         # ... and against the first time this text was seen in this process
         if len(text) <= 64:
             mk = (entry, text)
@@ -320,7 +318,7 @@ def check_text(text, out=None):
                 if len(MEMO) < MEMO_MAX:
                     MEMO[mk] = (s1, res if kind == "ok" else None)  # keeps the object alive so ids stay unique
             elif first[0] != s1:
-                out.fail(f"C17:twice:{entry}:later-call", f"{entry}.parse({_short(text)}) gave {first[0][0]}:{first[0][-1] if first[0][0] in ("rej", "esc") else "value"} earlier in this process and {_describe(kind, res)} now")
+                out.fail(f"C17:twice:{entry}:later-call", f"{entry}.parse({_short(text)}) gave {_describe_sig(first[0])} earlier in this process and {_describe(kind, res)}{' (another object)' if first[0][0] == s1[0] == 'U' else ''} now")
         del res, res2
 
     if accepted:
@@ -336,12 +334,26 @@ def check_text(text, out=None):
     return out
 
 
+def _repr(x, n=60):
+    try:
+        return _short(repr(x), n)
+    except Exception as e:  # e.g. an int too long to print
+        return f"<{type(x).__name__}: repr failed with {type(e).__name__}>"
+
+
 def _describe(kind, res):
+    # no object addresses in here: details end up in replay files and should not vary from run to run
     if kind == "ok":
         if isinstance(res, M.Quantity):
-            return f"Quantity(magnitude={_short(repr(res.magnitude), 40)} [{type(res.magnitude).__name__}], unit@{id(res.unit):x})"
-        return f"{type(res).__name__}@{id(res):x}"
+            return f"a Quantity (magnitude {_repr(res.magnitude, 40)} of type {type(res.magnitude).__name__})"
+        return f"a {type(res).__name__}"
     return f"{type(res).__name__}"
+
+
+def _describe_sig(sig):
+    if sig[0] in ("rej", "esc"):
+        return sig[1]
+    return {"U": "a Unit", "Q": "a Quantity"}.get(sig[0], "an object") + (f" (magnitude {_repr(sig[3], 40)} of type {sig[2]})" if sig[0] == "Q" else "")
 
 
 # ------------------------------------------------------------------ cases
@@ -797,7 +809,7 @@ def start_fuzz(tier, seed):
         log = open(os.path.join(d, f"log{i}.txt"), "wb")
         cmd = prefix + [
             sys.executable, "-m", "vf.props.c17_fuzz",
-            "--out", f"result{i}.json", "--runs", str(runs), "--fuzz-seed", str((seed * 1000003 + i * 7919 + 5) % (2**31 - 1) or 1),
+            "--out", f"result{i}.json", "--runs", str(runs * 3 // 5 if i % 2 else runs), "--fuzz-seed", str((seed * 1000003 + i * 7919 + 5) % (2**31 - 1) or 1),
             "--corpus", f"corpus{i}", "--dict", "dict.txt",
             # every other campaign of the thorough tier may grow its inputs past the 309-digit exponents
             "--max-len", "640" if i % 2 else "96",
